@@ -366,6 +366,7 @@ Theorem parse_inscription_safe s : safe (parse_inscription s).
 Proof.
   unfold parse_inscription. apply obind_safe; [apply is_ok_safe, decoded_ok|]. intros [p|] Hd; [|auto].
   apply decoded_some in Hd. destruct (lenN s <? 25) eqn:E25; [auto|].
+  apply obind_safe; [apply is_ok_safe, is_p2pkh_ok|]. intros isp _. destruct isp; [|cbn; auto]. cbn [negb].
   apply obind_safe; [apply is_ok_safe, inscription_helper_ok|]. intros ok Hok. destruct ok; [|cbn; auto]. cbn [negb].
   pose proof (inscription_helper_len _ Hok) as L.
   destruct (idx_some p 11) as [d0 ->]; [lia|]. destruct (idx_some p 9) as [c0 ->]; [lia|]. cbn [chk].
